@@ -70,3 +70,14 @@ Lemma In_firstn {A} (l : list A) k x : In x (firstn k l) -> In x l.
 Proof. intros H. rewrite <- (firstn_skipn k l). apply in_or_app. now left. Qed.
 Lemma In_skipn {A} (l : list A) k x : In x (skipn k l) -> In x l.
 Proof. intros H. rewrite <- (firstn_skipn k l). apply in_or_app. now right. Qed.
+
+Lemma nth_map_lt {A B} (f : A -> B) (l : list A) (d : B) (d' : A) j :
+  j < length l -> nth j (map f l) d = f (nth j l d').
+Proof.
+  intros Hj. rewrite nth_indep with (d' := f d') by (now rewrite map_length). apply map_nth.
+Qed.
+
+Lemma nth_map_seq0 {A} (f : nat -> A) (d : A) c k : k < c -> nth k (map f (seq 0 c)) d = f k.
+Proof.
+  intros Hk. rewrite (nth_map_lt f (seq 0 c) d 0) by (now rewrite seq_length). now rewrite seq_nth.
+Qed.
